@@ -1,6 +1,6 @@
 (* C01: preservation of the NetSys invariant by the remaining steps, and the theorems. *)
 From Coq Require Import ZArith List Bool Lia ZifyBool Permutation.
-From AQ Require Import lib.Base model.RangeSet model.StreamRecv model.StreamSpec model.StreamSend model.NetSys
+From AQ Require Import lib.Base model.RangeSet model.StreamRecv model.StreamSpec model.StreamSend model.NetSys model.NetSysLive
   proofs.RangeSetP proofs.ListZ proofs.StreamRecvP proofs.StreamSendP proofs.NetSysP.
 
 Ltac nproj := cbn [n_send n_recv n_written n_racked n_emitted n_resets n_rreset n_queue n_dbytes n_ends].
@@ -253,12 +253,6 @@ Proof.
 Qed.
 
 (* non-vacuity: a schedule with loss, duplication and reordering reaches complete delivery *)
-Fixpoint run_sched (s : net) (ops : list nop) : option net :=
-  match ops with
-  | [] => Some s
-  | op :: t => match net_step s op with Some (_, s') => run_sched s' t | None => None end
-  end.
-
 Lemma run_sched_reach ops : forall s s', nreach s -> Forall data_op ops -> run_sched s ops = Some s' -> nreach s'.
 Proof.
   induction ops as [|op t IH]; intros s s' R F H; cbn in H.
